@@ -63,7 +63,7 @@ def run_unit(ctx: Ctx, qualname: str) -> None:
                 cc = REG.classes.get(cls_qual)
                 if cc is not None:
                     for g, t in cc.ghost.items():
-                        env[p].fields[g] = False if t == "bool" else 0
+                        env[p].fields[g] = interp.ghost_initial(t)
                 interp.register_shared(env[p])
             else:
                 env[p] = interp.make_symbolic(f"obj {cls_qual}", "self")
